@@ -191,6 +191,10 @@ def run(tier, corrupt=False):
                     stale = sorted((out / "net").glob("*.py"))
                     if stale:
                         stale[0].write_text("# stale content from an older run\n")
+                    for sf in stale[1:3]:
+                        # ... and files of the right SIZE with different content (an older revision of the spec)
+                        txt = sf.read_text()
+                        sf.write_text(txt.replace("def ", "deF ", 1) if "def " in txt else txt[:-2] + "#\n")
                 res = run_gen(src, xml, out, order, hs, tmp, repeat)
                 nconf += 1
                 if corrupt and ci == 2 and res["files"]:
